@@ -15,7 +15,8 @@ VALUES = ["1", "abc", "{x}", '"x"', "{a{b}c}", '"a{b}c"', '{a"b}', "{a,b=c}", '"
           '"a {b} {c{d}} e"', "{% x}", "{a\r\nb}", "{rows end with \\\\} in LaTeX}", '"q \\\\" q"', "{open \\\\{ only}",
           '"a {"} b"', "{a \\\\ b}", '" x "', '"pad "', "{\tt}", '" "',
           "{007}", "01", '"0012"', "{٢٠٢٠}", "000", "{12}",
-          "{u\u0308ber}", '"\u212bngstr\u00f6m \u2126"', "{e\u0301}"]       # text is kept code point by code point (no normalisation)      # digit strings are text: leading zeros and non-ASCII digits are kept
+          "{u\u0308ber}", '"\u212bngstr\u00f6m \u2126"', "{e\u0301}",
+          '{"Alea iacta est"}', '{"q"}', '"{b}"', '{{"x"}}', '"{"}"']       # a value whose content is itself enclosed / a quotation       # text is kept code point by code point (no normalisation)      # digit strings are text: leading zeros and non-ASCII digits are kept
 WS = ["", " ", "\n", "\r\n", "\t", "  ", " \n ", "\u00a0", "\x0c ", " \u2003"]
 GAPS = ["", "% comment", "free text = , \" } {", "a\\@b", "x\ny", "#", "n\u0303 \u212a"]
 ETYPES = ["article", "Book", "commentary", "stringent", "x1", "INPROCEEDINGS", "preambles", "é",
